@@ -115,7 +115,12 @@ def run(ctx):
                 leaves = [i for i in range(len(ds.points)) if i not in refined and ds.point_depths[i] < 4]
                 if leaves:
                     pick = rng.choice(leaves); refined.add(pick)
-                    ds.refine_design(pick)
+                    try:
+                        ds.refine_design(pick)
+                    except Exception as e:
+                        r0 = ds.confidence_regions[pick]
+                        viol.append({"signature": "region-lower-above-upper", "message": f"adaptive design space (iterative intersection {iterative}): refine_design({pick}) raised {type(e).__name__}: {str(e)[:80]} — the region of design {pick} left by the previous updates is lower={np.asarray(r0.lower).tolist()}, upper={np.asarray(r0.upper).tolist()}", "replay": {"kind": "adaptive-raise"}})
+                        break
             if iterative:
                 for r in ds.confidence_regions:
                     r.intersect_iteratively = True
